@@ -968,6 +968,9 @@ pub fn encode_json_value_to_plutus_datum(
                             }
                             for entry in v.as_array().ok_or_else(tag_mismatch)? {
                                 let entry_obj = entry.as_object().ok_or_else(map_entry_err)?;
+                                if entry_obj.len() != 2 {
+                                    return Err(map_entry_err());
+                                }
                                 let raw_key = entry_obj.get("k").ok_or_else(map_entry_err)?;
                                 let value = entry_obj.get("v").ok_or_else(map_entry_err)?;
                                 let key =
